@@ -70,7 +70,7 @@ MISSED_FIRST = {
     "C15-h1": "missed: every group given to InsertIdenticalTips had something to insert; caught after a single-member group in front was drawn",
     "C15-h3": "missed: start trees had no support/p-value labels; caught after they were drawn",
     "C17-h3": "missed: names were t<i>; caught after names with '%' were drawn",
-    "C18-h2": "missed: lengths were dyadic (sums exact in any order) and the command prints 12 decimals; caught after non-dyadic lengths and a library call compared bit for bit were added",
+    "C18-h2": "missed twice: first because lengths were dyadic (sums exact in any order) and the command prints 12 decimals — non-dyadic lengths and a library call compared bit for bit were added; then because that library template was drawn 4 times in a quick run. Caught after every template got a floor of executions before the seeded search (6 generated inputs, half of them with non-dyadic lengths) and commands that start goroutines are executed under ten further schedules",
     "C18-h3": "missed: no Nextstrain input among the templates; caught after an export with mutations of several genes per branch was added",
     "C03-h2": "not evaluated and not kept as a seeded change: written against the code before the repair 74b6e79 (NNI Undo after the root was moved), which rewrote the lines it changes; the patch no longer applies",
     "C03-h3": "not evaluated and not kept as a seeded change: written against the code before the repair 74b6e79, which rewrote the lines it changes; the patch no longer applies",
@@ -80,11 +80,11 @@ MISSED_FIRST = {
     "C11-g2": "missed: at most 130 taxa; caught (if at all within the quick budget: about ten cases per run have 1001 or 1025 taxa) after huge cases were added",
     "C11-g3": "missed as exit 2: the reader goroutine spins without reaching a channel operation, so it never came back to the scheduler and the workers ran into the wall-clock backstop; caught after the logical loop budget was applied to every scheduled run (the faulty record made of ';' alone had been added from the author's summary before the measurement)",
     "C09-g1": "missed: no two names differed by case only; caught after such names were drawn",
-    "C04-g2": "missed by C04 (needs two goroutines indexing at the same moment: outside what the C04 engines run)",
+    "C04-g2": "not detected by the C04 check, rightly: the change needs two goroutines indexing two trees at the same moment, which C04 (quantified over inputs and histories of one tree) does not contain; it is a C11 violation and the C11 check catches it as a data race and as schedule-dependent results of compare / FBP",
     "C13-g1": "missed: the source text was always written with plain decimals; caught after lengths with an upper-case exponent were drawn",
     "C13-g2": "missed: C13 trees had no single-child inner nodes; caught after they were drawn",
-    "C17-g1": "not detected: a binary tree whose root is a tip (root with one neighbour) is outside the reference model of the harness, which reads the root label as an inner name",
-    "C18-g1": "missed as exit 2: 1001 goroutines exceeded the 512 the scheduler followed (index out of range inside the simulator, workers hung until the backstop); the scheduler now follows 2048 and stops the worker at once beyond",
+    "C17-g1": "missed: a binary tree whose root is a tip (root node with one neighbour) was outside the generator and the reference model, which read the root label as an inner name; caught after trees presented from one of their tips were added to both — which first exposed a genuine defect of the Newick writer on such trees (repaired, 6cc9608)",
+    "C18-g1": "missed three times: as exit 2 (1001 goroutines exceeded the 512 the scheduler followed; it now follows 2048 and stops the worker at once beyond); then because no schedule finished a later search before an earlier one and no big tree had two longest paths of exactly the same length that matter; caught after big trees with two very divergent sister taxa (and big trees with unit lengths), the ten-schedule sweep and the 'starve' schedule strategy were added",
     "C18-g2": "missed: the template gave the repeated name together with -f, which makes the command ignore the names of the command line; caught after the template was corrected",
     "C10-g1": "caught — measured after 'indexes left stale by a renaming' had been added from the author's summary; the version before would have missed it",
     "C10-g2": "caught — measured after the pre-used progress tracker had been added from the author's summary; the version before would have missed it",
@@ -97,7 +97,7 @@ MISSED_FIRST = {
     "C18-n3": "only evaluated after the second strengthening round (interfering command between two runs of a template); the first version would have missed it",
 }
 # changes written for one property that do not break it within its quantifier but break another one (whose check is the one that must catch them)
-BREAKS = {"C02-k3": "C11", "C18-j2": "C13"}
+BREAKS = {"C02-k3": "C11", "C18-j2": "C13", "C04-g2": "C11"}
 REJECTED = {"C04-j2", "C13-j2", "C13-j3", "C03-h2", "C03-h3", "C17-h1", "C04-g1"}
 for spec in sys.argv[3:]:
     prop, m = spec.split(":")
